@@ -215,6 +215,83 @@ func runC04(c *Ctx, r *Run) {
 	// ---- OB-B3
 	checkAbortProofIndices(c, r)
 
+	// ---- OB-B4: a round that can divert into an abort round (to identify the cheater) does so before it can hand out a
+	// result or move on: the check that selects the abort round dominates every other accepting exit of Finalize
+	r.Rule("OB-B4", "the consistency check that diverts into the blame round is passed before any result or next round is returned")
+	if p := c.PkgRel("protocols/cmp/presign"); p != nil {
+		for _, fn := range funcsOfPkg(c, c.SSA[p.Types]) {
+			if fn.Name() != "Finalize" || fn.Signature.Recv() == nil {
+				continue
+			}
+			// blocks that build an abort round
+			var abortBlk *ssa.BasicBlock
+			allInstrs(fn, func(in ssa.Instruction) {
+				if a, ok := in.(*ssa.Alloc); ok {
+					if n := namedOf(derefType(a.Type())); n != nil && strings.HasPrefix(n.Obj().Name(), "abort") && n.Obj().Pkg() == p.Types {
+						abortBlk = a.Block()
+					}
+				}
+			})
+			if abortBlk == nil {
+				continue
+			}
+			r.Analysed(c.FuncName(fn))
+			// the deciding branch: the nearest dominator of the abort block whose other edge does not lead into it
+			var decide *ssa.BasicBlock
+			var pass *ssa.BasicBlock
+			for d := abortBlk; d != nil && decide == nil; d = d.Idom() {
+				id := d.Idom()
+				if id == nil {
+					break
+				}
+				if _, isIf := id.Instrs[len(id.Instrs)-1].(*ssa.If); !isIf {
+					continue
+				}
+				for _, s := range id.Succs {
+					if s == d || s.Dominates(abortBlk) || blockReaches(s, abortBlk) {
+						continue
+					}
+					// the other side must be the normal continuation: it reaches an accepting (non-error) return
+					cont := false
+					for _, ret := range returnsOf(fn) {
+						if (ret.Block() == s || blockReaches(s, ret.Block())) && (!returnRejects(ret, ret.Block()) || isTailCallReturn(ret)) {
+							cont = true
+						}
+					}
+					if cont {
+						decide, pass = id, s
+					}
+				}
+			}
+			if decide == nil {
+				r.Fail("OB-B4", c.FuncName(fn)+"|divert-before-result", c.Pos(fn.Pos()), "the branch selecting the abort round is found", "UNDECIDED: no branch selects the abort round")
+				continue
+			}
+			bad := ""
+			if os.Getenv("MPS_B4") != "" {
+				fmt.Fprintln(os.Stderr, "B4", c.FuncName(fn), "abort", abortBlk.Index, "decide", decide.Index, "pass", pass.Index)
+			}
+			for _, ret := range returnsOf(fn) {
+				b := ret.Block()
+				if os.Getenv("MPS_B4") != "" {
+					fmt.Fprintln(os.Stderr, "   ret", b.Index, c.Pos(ret.Pos()), returnRejects(ret, b), pass.Dominates(b), blockReaches(abortBlk, b))
+				}
+				if b == abortBlk || abortBlk.Dominates(b) || blockReaches(abortBlk, b) {
+					continue
+				}
+				if returnRejects(ret, b) && !isTailCallReturn(ret) {
+					continue
+				}
+				if !(b == pass || pass.Dominates(b)) {
+					bad = c.Pos(ret.Pos())
+				}
+			}
+			r.Check("OB-B4", c.FuncName(fn)+"|divert-before-result", c.Pos(decide.Instrs[len(decide.Instrs)-1].Pos()), bad == "",
+				"every result / next round is returned only after the check that diverts into the blame round has passed",
+				"the accepting return at "+bad+" is reachable without passing the consistency check that diverts into the abort round: with an inconsistent share the round hands out its result and the cheater is never identified")
+		}
+	}
+	r.Require("OB-B4", 2)
 	r.Require("OB-B1", 8)
 	r.Require("OB-B2", 8)
 	r.Require("PP-1", 10)
@@ -732,4 +809,27 @@ func sentinelInit(v ssa.Value) *ssa.Call {
 		return nil
 	}
 	return found
+}
+
+// isTailCallReturn: `return f(...)` - the results are exactly the results of one call (the next round's Finalize).
+func isTailCallReturn(ret *ssa.Return) bool {
+	var call ssa.Value
+	for i, res := range ret.Results {
+		switch x := res.(type) {
+		case *ssa.Extract:
+			if x.Index != i || (call != nil && call != x.Tuple) {
+				return false
+			}
+			call = x.Tuple
+		case *ssa.Call:
+			if len(ret.Results) != 1 {
+				return false
+			}
+			call = x
+		default:
+			return false
+		}
+	}
+	_, ok := call.(*ssa.Call)
+	return ok
 }
